@@ -17,17 +17,36 @@ from harness.hbase import fail, tier, Prune, realize
 NITEMS = tier(3, 5)
 
 
-def h_feed(n: int, sentinel_at: int, epipe_at: int) -> bool:
+class _Unpicklable:
+    def __reduce__(self):
+        raise TypeError('cannot pickle this object')
+
+
+def h_feed(code: int) -> bool:
     """
-    pre: 0 <= n <= NITEMS and 0 <= sentinel_at <= NITEMS and -1 <= epipe_at <= NITEMS
+    pre: 0 <= code < 10 ** 40
     post: _
     """
-    n = realize(n)
-    sentinel_at = realize(sentinel_at)
-    epipe_at = realize(epipe_at)
-    if sentinel_at > n:
+    from harness.hbase import NDCode
+    try:
+        nd = NDCode(code)
+        n = nd.draw(0, NITEMS)
+        sentinel_at = nd.draw(0, n)
+        fault = nd.draw(0, 2)              # none / the pipe breaks at some send / one object cannot be pickled
+        epipe_at = nd.draw(0, NITEMS) if fault == 1 else -1
+        bad_at = nd.draw(0, NITEMS - 1) if fault == 2 else -1
+    except Prune:
         return True
+    return _feed_case(n, sentinel_at, epipe_at, bad_at)
+
+
+def _feed_case(n, sentinel_at, epipe_at, bad_at):
     items = [('item', i) for i in range(n)]
+    if 0 <= bad_at < sentinel_at:
+        # one object that cannot be pickled was put among the others: it cannot be delivered, every other object still is
+        return _feed_with_unpicklable(items, sentinel_at, bad_at)
+    if bad_at >= 0:
+        return True
     buf = bq.collections.deque(items[:sentinel_at] + [bq._sentinel] + items[sentinel_at:])
     notempty = threading.Condition(threading.Lock())
     sent = []
@@ -70,6 +89,47 @@ def h_feed(n: int, sentinel_at: int, epipe_at: int) -> bool:
         return True
     if got != expect:
         return fail('C16:feed:items-lost-duplicated-or-reordered')
+    if state['closed'] != 1:
+        return fail('C16:feed:sentinel-did-not-close-the-writer')
+    return True
+
+
+def _feed_with_unpicklable(items, sentinel_at, bad_at):
+    import inspect
+    objs = list(items[:sentinel_at])
+    objs[bad_at] = _Unpicklable()
+    buf = bq.collections.deque(objs + [bq._sentinel])
+    notempty = threading.Condition(threading.Lock())
+    sent = []
+    state = {'closed': 0, 'released': 0}
+
+    class WLock:
+        def acquire(self):
+            pass
+
+        def release(self):
+            pass
+
+    class Sem:
+        def release(self):
+            state['released'] += 1
+
+    def close():
+        state['closed'] += 1
+    saved = (bq.error, bq.info, bq.debug, bq.is_exiting)
+    bq.error = lambda *a, **k: True
+    bq.info = bq.debug = lambda *a, **k: None
+    bq.is_exiting = lambda: False
+    args = [buf, notempty, sent.append, WLock(), close, False]
+    if len(inspect.signature(bq.Queue._feed).parameters) >= 7:
+        args.append(Sem())
+    try:
+        bq.Queue._feed(*args)
+    finally:
+        bq.error, bq.info, bq.debug, bq.is_exiting = saved
+    expect = [pickle.dumps(x) for k, x in enumerate(items[:sentinel_at]) if k != bad_at]
+    if [bytes(b) for b in sent] != expect:
+        return fail('C16:feed:objects-put-after-an-unpicklable-one-are-never-delivered' if len(sent) < len(expect) else 'C16:feed:items-lost-duplicated-or-reordered')
     if state['closed'] != 1:
         return fail('C16:feed:sentinel-did-not-close-the-writer')
     return True
@@ -187,7 +247,7 @@ def h_get(block: bool, timeout: int, t0: int, d1: int, lock_ok: bool, data: bool
 # ---------------------------------------------------------------------------
 # (c) E2: JoinableQueue.put / task_done / join and Queue.get, compiled and model-checked
 
-def jq_system(nprod, extra_done=False, cap=1):
+def jq_system(nprod, extra_done=False, cap=1, block=True, prefilled=0):
     import z3
     from vlib import py2ts, bmc
     from vlib.py2ts import Asm, Obj
@@ -226,7 +286,7 @@ def jq_system(nprod, extra_done=False, cap=1):
         a.place(end)
         return a, rv
     for i in range(nprod):
-        a, rv = comp(jm['put'], 'p%d.' % i, {'block': True, 'timeout': None, 'obj': 0})
+        a, rv = comp(jm['put'], 'p%d.' % i, {'block': block, 'timeout': None, 'obj': 0})
         a.emit('ret', ('loc', rv))
         prog = a.link()
         for k, ins in enumerate(prog):
@@ -245,7 +305,8 @@ def jq_system(nprod, extra_done=False, cap=1):
     # the consumer: get() then task_done() per item (plus one task_done too many in the over-count scenario)
     a = Asm()
     last = None
-    for k in range(nprod):
+    nget = prefilled if prefilled else nprod          # prefilled scenario: the consumer takes and finishes the item that was already there
+    for k in range(nget):
         c = py2ts.Compiler(a, env, methods, prefix='g%d.' % k, consts={'block': True, 'timeout': None})
         rv = a.tmp('got')
         end = a.label('getend')
@@ -253,7 +314,7 @@ def jq_system(nprod, extra_done=False, cap=1):
         a.emit('set', rv, ('const', 0))
         c.block(qm['get'].body)
         a.place(end)
-    ndone = nprod + (1 if extra_done else 0)
+    ndone = nget + (1 if extra_done else 0)
     for k in range(ndone):
         c = py2ts.Compiler(a, env, methods, prefix='d%d.' % k)
         last = a.tmp('done')
@@ -280,7 +341,9 @@ def jq_system(nprod, extra_done=False, cap=1):
     prog[lastrel] = tuple(prog[lastrel]) + ({'join_ok': (lambda v: z3.If(z3.UGE(v['gh']['dones'], v['gh']['puts_before']), BVV(1), BVV(0)))},)
     threads.append(prog)
     roles.append('joiner')
-    sysm = System(threads, sems={'Q': cap, 'B': 0, 'PIPE': 0, 'U': 0, 'S': 0, 'W': 0, 'X': 0}, locks={'N': 0, 'L': 0, 'R': 0}, ghosts=ghosts)
+    if prefilled:
+        ghosts['puts'] = prefilled
+    sysm = System(threads, sems={'Q': cap - prefilled, 'B': 0, 'PIPE': prefilled, 'U': prefilled, 'S': 0, 'W': 0, 'X': 0}, locks={'N': 0, 'L': 0, 'R': 0}, ghosts=ghosts)
     return sysm, roles, cap
 
 
@@ -366,6 +429,64 @@ def _jq(nprod, extra_done, timeout_s):
             'samples': [{'scenario': 'JoinableQueue: %d producer(s) || feeder || consumer || joiner' % nprod, 'K': K}]}
 
 
+def _jq_full(timeout_s):
+    """a full queue (capacity 1, one counted item waiting in the pipe): a producer's non-blocking put races with the consumer that takes
+    and finishes the waiting item.  If the put is refused (Full) it must leave no trace: once the consumer is done the unfinished count is
+    zero and join() returns; if it is accepted the capacity is never exceeded."""
+    import z3
+    from vlib import bmc
+    from vlib.bmc import BVV
+    from vlib.py2ts import RAISED
+    sysm, roles, cap = jq_system(1, False, cap=1, block=False, prefilled=1)
+    prod, cons, join = roles.index('producer'), roles.index('consumer'), roles.index('joiner')
+    K = 9 + 2 + 5 + (4 + 9) + 12 + 6
+
+    def refused(fin):
+        return z3.And(sysm.ended(fin, prod), fin['loc'][prod]['$ret'] == BVV(RAISED), sysm.ended(fin, cons))
+
+    def stuck(states):
+        fin = states[-1]
+        return z3.And(refused(fin), z3.Not(sysm.ended(fin, join)))
+
+    def counted(states):
+        fin = states[-1]
+        return z3.And(refused(fin), fin['sem']['U'] != BVV(0))
+
+    def capacity(states):
+        return z3.Or(*[z3.Or(z3.UGT(st['sem']['B'] + st['sem']['PIPE'], BVV(cap)), z3.UGT(st['sem']['Q'], BVV(cap))) for st in states])
+
+    def no_error(states):
+        return z3.Or(*[st['err'] for st in states])
+    props = {'Q9-a-refused-put-leaves-no-unfinished-task': counted, 'Q2-join-returns-once-every-accepted-item-was-matched:refused-put': stuck,
+             'Q1-never-more-than-maxsize-items-waiting': capacity, 'Q5-no-assertion-of-the-real-code-fails': no_error}
+    detail = []
+    for name, bad in props.items():
+        r = bmc.check_property(sysm, K, bad, (), timeout_s)
+        detail.append({'property': name, 'status': r['status'], 'K': K, 'unwinding': r.get('unwinding'), 'why': r.get('why')})
+        if r['status'] == 'violated':
+            return {'status': 'refuted', 'detail': detail, 'cex': {'args': [{'scenario': 'jq-full', 'nprod': 1, 'extra_done': False, 'property': name,
+                    'schedule': r['schedule'], 'final': r['final'], 'lengths': [len(p) for p in sysm.threads], 'roles': roles}], 'kwargs': {}},
+                    'solver_queries': bmc.STATS['queries'], 'solver_time_s': round(bmc.STATS['time'], 2)}
+        if r['status'] != 'holds':
+            return {'status': 'unknown', 'detail': detail, 'messages': [str(r.get('why') or r.get('result'))],
+                    'solver_queries': bmc.STATS['queries'], 'solver_time_s': round(bmc.STATS['time'], 2)}
+
+    def witness(states):
+        fin = states[-1]
+        return z3.And(refused(fin), sysm.ended(fin, join))
+    w = bmc.check_property(sysm, K, witness, (), timeout_s)
+    ok = w['status'] == 'violated'
+    detail.append({'property': 'reachability-witness (a refused put, join returned)', 'status': 'sat' if ok else w['status']})
+    return {'status': 'confirmed' if ok else 'unknown', 'detail': detail, 'nontrivial_witness': ok,
+            'solver_queries': bmc.STATS['queries'], 'solver_time_s': round(bmc.STATS['time'], 2),
+            'states': bmc.STATS['states'], 'transitions': bmc.STATS['transitions'],
+            'samples': [{'scenario': 'JoinableQueue full: non-blocking put || feeder || consumer || joiner', 'K': K}]}
+
+
+def ob_jq_full(tier):
+    return _jq_full(900)
+
+
 def ob_jq_1(tier):
     return _jq(1, False, 900)
 
@@ -391,7 +512,9 @@ def replay_jq(spec):
     if spec.get('scenario') == 'simplequeue':
         return replay_sq(spec)
     gate = Gate(spec['schedule'])
-    sems = {n: GSem(gate, n, v) for n, v in (('Q', 1), ('B', 0), ('PIPE', 0), ('U', 0), ('S', 0), ('W', 0), ('X', 0))}
+    full = spec.get('scenario') == 'jq-full'          # capacity 1, one counted item already waiting in the pipe; the put is non-blocking
+    pre = 1 if full else 0
+    sems = {n: GSem(gate, n, v) for n, v in (('Q', 1 - pre), ('B', 0), ('PIPE', pre), ('U', pre), ('S', 0), ('W', 0), ('X', 0))}
     lockN, lockL, lockR = GLock(gate), GLock(gate), GLock(gate)
     cond = bs.Condition.__new__(bs.Condition)
     cond.__setstate__((lockL, sems['S'], sems['W'], sems['X']))
@@ -422,7 +545,16 @@ def replay_jq(spec):
     q._recv_bytes = lambda: (sems['PIPE'].acquire(), pickle.dumps(0))[1]
     nprod = spec['nprod']
     ndone = nprod + (1 if spec['extra_done'] else 0)
-    bodies = [(lambda: q.put(0) or 0) for _ in range(nprod)]
+    def nb_put():
+        try:
+            q.put(0, False)
+        except bq.Full:
+            return 63
+        return 0
+    bodies = [nb_put if full else (lambda: q.put(0) or 0) for _ in range(nprod)]
+    nget = pre if full else nprod
+    if full:
+        ndone = nget
 
     def feeder():
         for _ in range(nprod):
@@ -431,7 +563,7 @@ def replay_jq(spec):
         return 0
 
     def consumer():
-        for _ in range(nprod):
+        for _ in range(nget):
             q.get()
         r = 0
         for _ in range(ndone):
@@ -826,3 +958,87 @@ def replay_sq(spec):
         return True
     hbase.REPLAY['tag'] = 'C16:' + str(spec.get('property'))
     return False
+
+
+# ---------------------------------------------------------------------------
+# SimpleQueue is "a locked pipe": what the model-checked scenario (simplequeue) assumes about every transfer - it happens while the
+# queue's write (read) lock is held, whatever the size of the message - is checked here on the real send_payload / get_payload with a
+# payload whose LENGTH is a solver variable (0 .. 2**31): one send of exactly that object, under the write lock; one receive, under the
+# read lock; locks released afterwards also when the transfer fails.
+
+class _SizedPayload:
+    def __init__(self, n):
+        self.n = n
+
+    def __len__(self):
+        return self.n
+
+
+class _RecLock:
+    def __init__(self):
+        self.held = 0
+        self.uses = 0
+
+    def acquire(self, *a):
+        self.held += 1
+        self.uses += 1
+        return True
+
+    def release(self):
+        self.held -= 1
+
+    def __enter__(self):
+        return self.acquire()
+
+    def __exit__(self, *a):
+        self.release()
+        return False
+
+
+def h_sq_locked(n: int, fails: bool) -> bool:
+    """
+    pre: 0 <= n <= 2 ** 31
+    post: _
+    """
+    wlock, rlock = _RecLock(), _RecLock()
+    sends, recvs, bad = [], [], []
+    payload = _SizedPayload(n)
+
+    class End:
+        def send_bytes(self, value, *a):
+            sends.append(value)
+            if not wlock.held:
+                bad.append('C16:simplequeue:message-written-without-the-write-lock')
+            if fails:
+                raise OSError(32, 'Broken pipe')
+
+        def recv_bytes(self, *a):
+            recvs.append(1)
+            if not rlock.held:
+                bad.append('C16:simplequeue:message-read-without-the-read-lock')
+            if fails:
+                raise EOFError()
+            return b'payload'
+    q = bq.SimpleQueue.__new__(bq.SimpleQueue)
+    q._reader = q._writer = End()
+    q._rlock, q._wlock = rlock, wlock
+    try:
+        q.send_payload(payload)
+    except OSError:
+        if not fails:
+            return fail('C16:simplequeue:send-raises')
+    got = None
+    try:
+        got = q.get_payload()
+    except EOFError:
+        if not fails:
+            return fail('C16:simplequeue:receive-raises')
+    if bad:
+        return fail(bad[0])
+    if len(sends) != 1 or sends[0] is not payload:
+        return fail('C16:simplequeue:payload-not-sent-exactly-once')
+    if len(recvs) != 1 or (not fails and got != b'payload'):
+        return fail('C16:simplequeue:payload-not-received-exactly-once')
+    if wlock.held or rlock.held:
+        return fail('C16:simplequeue:lock-kept-after-the-transfer')
+    return True
